@@ -99,7 +99,12 @@ def judge_plugin(st0, ops, props=None, classify=True):
             elif k == "api":
                 anon, command, data = op[1], op[2], dict(op[3])
                 with mock.patch("octoprint_excluderegion.current_user", suites.FakeUser(anon)):
-                    resp = unit.on_api_command(command, dict(data))
+                    try:
+                        resp = unit.on_api_command(command, dict(data))
+                    except Exception as exc:  # pylint: disable=broad-except
+                        # the request fails (the client sees an error): like a rejected request it
+                        # must leave the registry alone
+                        resp = ("raised", type(exc).__name__)
                 after_regions = list(unit.state.excludedRegions)
                 after_list = [region_key(r) for r in after_regions]
                 rejected = resp is not None
